@@ -1,5 +1,6 @@
 #include <cgreen/messaging.h>
 #include <cgreen/internal/cgreen_pipe.h>
+#include <cgreen/internal/verif_hooks.h>
 #include <sys/types.h>
 #include <stdio.h>
 #include <stdlib.h>
@@ -106,7 +107,9 @@ void send_cgreen_message(int messaging, int result) {
     memset(message, 0, sizeof(*message));
     message->type = queues[messaging].tag;
     message->result = result;
+    CGREEN_VERIF_POINT("before_write");
     cgreen_pipe_write(queues[messaging].writepipe, message, sizeof(CgreenMessage));
+    CGREEN_VERIF_POINT("after_write");
     // give the parent a chance to read so that failures are more likely to be output
     // before the child crashes
     sched_yield();
